@@ -119,17 +119,18 @@ def redoCall (st : State) (h : Nat) (goal : Term) : List Stored → State × Out
     | some σ => ({ st' with iters := st.iters.set h (.call goal alive) }, .answer (resolve fuelU σ goal))
     | none => redoCall st' h goal alive
 
-/-- next solution of a retract: first held clause that unifies and is still present -/
+/-- next solution of a retract: first held clause that (renamed apart) unifies and is still present -/
 def redoRetract (st : State) (h : Nat) (pat : Term) (pi : PI) : List Stored → State × Out
   | [] => ({ st with iters := st.iters.set h (.retract pat pi []) }, .no)
   | c :: alive =>
-    match unify fuelU [] (rulify pat) (rulify c.raw) with
+    let st' := { st with nextVar := st.nextVar + maxVar c.raw }
+    match unify fuelU [] (rulify pat) (rulify (shift st.nextVar c.raw)) with
     | some σ =>
       if present st.procs pi c.id then
-        ({ st with procs := erase st.procs pi c.id, iters := st.iters.set h (.retract pat pi alive) },
+        ({ st' with procs := erase st.procs pi c.id, iters := st.iters.set h (.retract pat pi alive) },
          .answer (resolve fuelU σ pat))
-      else redoRetract st h pat pi alive
-    | none => redoRetract st h pat pi alive
+      else redoRetract st' h pat pi alive
+    | none => redoRetract st' h pat pi alive
 
 def step (st : State) : Op → State × Out
   | .asserta c => insert st c true
